@@ -159,7 +159,18 @@ def run_history(case, ctx, rng):
     st = case["storage"]
     inner = Counting(make_inner(case["inner"]))
     w = LDAWrapper(inner, tol=tol)
-    w.update(matgen.to_storage(A, st))
+    # half of the sparse cases keep one fixed sparsity structure for every matrix of the history, zeros stored explicitly (what an
+    # assembly from fixed (row, col) triplets hands over when elements are void): same structure, other couplings
+    fixed = st in ("csc", "csr") and rng.random() < 0.5
+    if fixed:
+        ctx.count("histories_with_fixed_structure_and_explicit_zeros")
+
+    def store(M_):
+        if not fixed:
+            return matgen.to_storage(M_, st)
+        r_, c_ = np.indices(M_.shape)
+        return sps.coo_matrix((np.asarray(M_).ravel(), (r_.ravel(), c_.ravel())), shape=M_.shape).asformat(st)
+    w.update(store(A))
     cplxA = np.iscomplexobj(A)
     solved = {"N": [], "T": [], "H": []}
     had_complex_rhs = False
@@ -189,7 +200,7 @@ def run_history(case, ctx, rng):
         trans = str(rng.choice(["N", "N", "T", "H"]))
         if op in ("update", "newpattern"):
             A = _next_matrix(case, rng, A, op == "newpattern")
-            w.update(matgen.to_storage(A, st))
+            w.update(store(A))
             near_ctx["on"] = near_ctx["edge"] = False
             solved = {"N": [], "T": [], "H": []}
             had_complex_rhs = False
@@ -320,7 +331,7 @@ def run_history(case, ctx, rng):
             except Exception:  # the call is outside the inner solver's domain (e.g. real SuperLU, complex rhs)
                 ctx.count("ops_outside_inner_domain")
                 w = LDAWrapper(inner, tol=tol)   # the failed call may have left a half-updated wrapper: start afresh
-                w.update(matgen.to_storage(A, st))
+                w.update(store(A))
                 solved = {"N": [], "T": [], "H": []}
                 had_complex_rhs = False
                 continue
